@@ -39,15 +39,19 @@ Section Collect.
   (* outer size of a line as css-flexbox 9.3 counts it *)
   Definition line_outer (gap : Q) (line : list A) : Q := sumQ sz line + gaps_enum line gap.
 
-  (* css-flexbox 9.3 reference: greedy; an item alone always goes in *)
+  (* css-flexbox 9.3 reference: "collect consecutive items one by one until the first time that the next
+     collected item would not fit ...  If the very first uncollected item wouldn't fit, collect just it
+     into the line." *)
   Fixpoint collect_css_aux (main gap : Q) (line : list A) (l : list A) : list (list A) :=
     match l with
     | [] => match line with [] => [] | _ => [line] end
     | c :: t =>
+        let start_with_c := if Qlt_le_dec main (sz c) then [c] :: collect_css_aux main gap [] t
+                            else collect_css_aux main gap [c] t in
         match line with
-        | [] => collect_css_aux main gap [c] t
+        | [] => start_with_c
         | _ => if Qlt_le_dec main (line_outer gap (line ++ [c]))
-               then line :: collect_css_aux main gap [c] t
+               then line :: start_with_c
                else collect_css_aux main gap (line ++ [c]) t
         end
     end.
@@ -56,11 +60,10 @@ Section Collect.
 End Collect.
 
 (* ---- step 12, one line *)
-Inductive justify := JStart | JEnd | JCenter | JBetween | JAround | JEvenly | JStretch.
+Inductive justify := JStart | JEnd | JCenter | JBetween | JAround | JEvenly.
 
-(* an item as step 12 sees it: border-box width without the content width is in jextra
-   (paddings + borders), content width jw, margins (None = auto), flex-grow (for 'stretch') *)
-Record jitem := mkJ { jid : Z; jw : Q; jpb : Q; jml : option Q; jmr : option Q; jgrow : Q; jmin : Q; jmax : option Q }.
+(* an item as step 12 sees it: content width jw, paddings + borders jpb, margins (None = auto) *)
+Record jitem := mkJ { jid : Z; jw : Q; jpb : Q; jml : option Q; jmr : option Q }.
 
 Definition oz (m : option Q) : Q := match m with None => 0 | Some q => q end.
 Definition nauto (x : jitem) : Z :=
@@ -75,10 +78,10 @@ Definition nautos (line : list jitem) : Z := fold_right (fun x a => (nauto x + a
 Definition fill_auto (share : Q) (x : jitem) : jitem :=
   mkJ (jid x) (jw x) (jpb x)
       (Some (match jml x with None => share | Some q => q end))
-      (Some (match jmr x with None => share | Some q => q end)) (jgrow x) (jmin x) (jmax x).
+      (Some (match jmr x with None => share | Some q => q end)).
 
-(* placed item: id, position_x (margin-box left edge), used content width, used margins *)
-Record placed := mkP { pid : Z; px : Q; pw : Q; pml : Q; pmr : Q }.
+(* placed item: id, position_x (margin-box left edge), used content width, margin-box width *)
+Record placed := mkP { pid : Z; px : Q; pw : Q; pmw : Q }.
 
 Definition lead (j : justify) (free : Q) (n : nat) : Q :=
   match j with
@@ -96,43 +99,37 @@ Definition between (j : justify) (free : Q) (n : nat) : Q :=
   | _ => 0
   end.
 
-(* the loop `for i, (index, child) in enumerate(line)` of 12.2; growths = sum of flex-grow over all children *)
-Fixpoint place_loop (j : justify) (free gap growths : Q) (n : nat) (first : bool) (pos : Q) (line : list jitem)
-  : list placed :=
+(* the loop `for i, (index, child) in enumerate(line)` of 12.2 *)
+Fixpoint place_loop (gap sp : Q) (first : bool) (pos : Q) (line : list jitem) : list placed :=
   match line with
   | [] => []
   | x :: t =>
       let pos1 := if first then pos else pos + gap in
-      let w := match j with
-               | JStretch => if Qeq_dec growths 0 then jw x else jw x + free * jgrow x / growths
-               | _ => jw x
-               end in
-      let mw := oz (jml x) + w + jpb x + oz (jmr x) in
-      (* the width written by 'stretch' goes through min/max again in the final block layout of the item *)
-      let wf := match j with JStretch => Qmax (jmin x) (qmin_opt w (jmax x)) | _ => w end in
-      mkP (jid x) pos1 wf (oz (jml x)) (oz (jmr x))
-        :: place_loop j free gap growths n false (pos1 + mw + between j free n) t
+      let mw := oz (jml x) + jw x + jpb x + oz (jmr x) in
+      mkP (jid x) pos1 (jw x) mw :: place_loop gap sp false (pos1 + mw + sp) t
   end.
 
-Definition justify_line (j : justify) (origin W gap growths : Q) (line : list jitem) : list placed :=
-  let free0 := jfree W gap line in
+(* 12.1: auto margins take the positive free space *)
+Definition margins_line (free0 : Q) (line : list jitem) : list jitem * Q :=
   let k := nautos line in
-  let line1 := if (0 <? k)%Z then map (fill_auto (free0 / inject_Z k)) line else line in
-  let free := if (0 <? k)%Z then 0 else free0 in
-  place_loop j free gap growths (length line) true (origin + lead j free (length line)) line1.
+  if (0 <? k)%Z then (map (fill_auto (Qmax free0 0 / inject_Z k)) line, Qmin free0 0) else (line, free0).
 
-(* css-flexbox 9.5 / css-align reference: auto margins only take positive free space; negative free space
-   falls back (space-between -> start, space-around / space-evenly -> center); stretch behaves as start *)
-Definition justify_css (j : justify) (origin W gap : Q) (line : list jitem) : list placed :=
-  let free0 := jfree W gap line in
-  let k := nautos line in
-  let share := if Qlt_le_dec 0 free0 then free0 / inject_Z k else 0 in
-  let line1 := if (0 <? k)%Z then map (fill_auto share) line else line in
-  let free := if (0 <? k)%Z then (if Qlt_le_dec 0 free0 then 0 else free0) else free0 in
-  let j' := match j with
-            | JStretch => JStart
-            | JBetween => if Qlt_le_dec free 0 then JStart else j
-            | JAround | JEvenly => if Qlt_le_dec free 0 then JCenter else j
-            | _ => j
-            end in
-  place_loop j' free gap 0 (length line) true (origin + lead j' free (length line)) line1.
+(* fallback alignment when the items overflow; `jstart` = what flex-start means in the left-to-right frame *)
+Definition fallback (jstart : justify) (free : Q) (j : justify) : justify :=
+  if Qlt_le_dec free 0
+  then match j with JBetween => jstart | JAround | JEvenly => JCenter | x => x end
+  else j.
+
+(* the code: the fallback of space-between is ('flex-start',), read after the *-reverse swap, i.e. JStart *)
+Definition justify_line (j : justify) (origin W gap : Q) (line : list jitem) : list placed :=
+  let (line1, free) := margins_line (jfree W gap line) line in
+  let j' := fallback JStart free j in
+  let n := length line in
+  place_loop gap (between j' free n) true (origin + lead j' free n) line1.
+
+(* css-flexbox 9.5 / 8.2 reference *)
+Definition justify_css (reverse : bool) (j : justify) (origin W gap : Q) (line : list jitem) : list placed :=
+  let (line1, free) := margins_line (jfree W gap line) line in
+  let j' := fallback (if reverse then JEnd else JStart) free j in
+  let n := length line in
+  place_loop gap (between j' free n) true (origin + lead j' free n) line1.
